@@ -65,7 +65,7 @@ func (c cell) byteAt(env *ir.Env) byte {
 	return byte(new(big.Int).Rsh(v, uint(c.idx)*8).Uint64() & 0xff)
 }
 
-var memVals = []valuation{{0x0807060504030201, 0, 1}, {0xf1e2d3c4b5a69788, 0, 2}, {0x00ff00ff7f8001fe, 0, 3}}
+var memVals = []valuation{{R1: 0x0807060504030201, R2: 0, Seed: 1}, {R1: 0xf1e2d3c4b5a69788, R2: 0, Seed: 2}, {R1: 0x00ff00ff7f8001fe, R2: 0, Seed: 3}}
 
 func memEnv(v valuation) *ir.Env {
 	return &ir.Env{
